@@ -30,7 +30,7 @@ CHECK = {
                    "vC39_orset_fullstate ships the full state after each update instead of the delta (handleFullState / anti-entropy). vC39_ormap_sets restricts ORMap updates to Set (no Remove). "
                    "Replicator level: the crdt-package entries transcribe the store logic (actor/replicator.go handleUpdate lines 396-399, handleDelta 567-580, handleFullState 686-698; 3 lines each) in the harness. vC39_replicator (thorough tier, package actor) runs the REAL replicatorActor.handleUpdate and handleDelta on three replicatorActor values (GCounter key, crdt.Update with a Modify of one or two increments of arbitrary amounts): a's two deltas and b's delta, captured where handleUpdate hands them to publishDelta (substituted by a recorder), are delivered to the third replicator in each of the 36 orders of 4 deliveries containing all three (case split per job), asserted equal to the merge of the originators' stores; a replicator ignores its own deltas, originators converge, a tombstoned key refuses deltas. Codec and topic transport are not executed (C40 covers the codec). "
                    "Result on the unchanged tree: GCounter, PNCounter, MVRegister, ORMap-without-Remove and ORSet full-state exchange converge; ORSet deltas and ORMap with Remove do not (known findings C39-1*, C39-2*).",
-    "bounds": {"originators": 2, "updates": "a: 2, b: 1 (quick) / 2 (thorough; ORSet/ORMap: 1)", "operations per update": "0..2 (counters, MVRegister); ORSet/ORMap: 0..1, and 0..2 for the in-order exchange between the originators (thorough)", "deliveries at the third replica": "number of deltas + 1 (any order, one duplicate)",
+    "bounds": {"originators": 2, "updates": "a: 2, b: 1 (quick) / 2 (thorough; ORSet/ORMap: 1)", "operations per update": "0..2 (GCounter, MVRegister; PNCounter: nothing, inc, dec and all four two-operation orders inc-dec, inc-inc, dec-inc, dec-dec); ORSet/ORMap: 0..1, and 0..2 for the in-order exchange between the originators (thorough)", "deliveries at the third replica": "number of deltas + 1 (any order, one duplicate)",
                "amounts": "< 2^60 each (no uint64 wrap of a per-node count)", "elements / keys": 2, "case split": "bUpdates, ops per update and the assertion group (part) are fixed per job; everything else symbolic"},
     "assumptions": ["map iteration order is insertion order (not Go's randomisation); dot lists / entries compared as sets",
                     "per-node counts do not wrap (amounts < 2^60)",
